@@ -15,6 +15,7 @@ RULE = ("bounded-exhaustive enumeration: destination precision in {64,128(,192,2
         "depth 3 with state (allocated precision, current precision, value). Oracle: Fraction; |got-exact| < 2^(2-p)|exact| with p = "
         "mpf_get_prec(rop), got == exact when operands and exact value fit p bits, format rules after every call. distinct_nontrivial = "
         "distinct (function, precisions, operand size/exponent-difference/sign classes, exact-or-rounded) tuples.")
+RULE = RULE + (" " + 'Later additions: mpf_set_str mantissa/point/exponent grid; 21 operations on variables whose precision was lowered by mpf_set_prec_raw (all alias modes); mpf_get_str with as many digits as the precision carries over the whole exponent range (last-digit accuracy).')
 ASSUMPTIONS = ["fractions.Fraction is the reference model", "the accuracy bound is the property's (about one limb of slack): smaller losses on inexact results are within the property"]
 BUDGET = {"quick": 420, "thorough": 3000}
 M, H, B = al.M, al.H, al.B
